@@ -552,7 +552,7 @@ func runC03(w *explore.Worker) {
 		bound = 2
 	}
 	for _, sc := range c03Scenarios {
-		c03Current = "scenario " + sc
+		c03Current = "" // the watchdog guards single mutation cases; schedule exploration is bounded by the step horizon
 		explore.ExploreSchedules(w, explore.SchedConfig{Harness: "C03" + sc, Bound: bound, FreeCost: 1, MaxSteps: 50000, Suspend: true}, c03Scenario(sc))
 	}
 	w.Max("scenario_deviation_bound_completed", bound)
